@@ -11,7 +11,11 @@ RULE = (
     "Every history of the real actors is replayed event by event through Mechanic.step (outputs must be identical) and judged by a "
     "model-independent oracle on race control's inbox and the call log. A history is non-trivial when at least one node actor was "
     "asked to start or the cluster is external; signature = (groups, remote ips, fault plan kinds, convention-update kinds, stop, "
-    "what race control received, final MechanicActor status)"
+    "what race control received, final MechanicActor status). Round 6: every node gets a directory layout (car variable data_paths "
+    "absent / string / list through the real ElasticsearchInstaller._data_paths; data below / next to the installation, on other disks, "
+    "names that extend each other, nested, repeated, never created, bystanders) and the real provisioner.cleanup is compared with "
+    "Cleanup.cleanup on the directory listing before/after; with the real ProcessLauncher daemons of planned nodes die before the stop "
+    "and the system metrics / meta data per node, the nodes reported stopped, SIGTERMs and survivors are compared with Launcher.stopAllT"
 )
 TRUSTED = [
     "Thespian's delivery guarantees are the simulator's: FIFO per ordered actor pair, atomic receiveMessage, retry-once-then-PoisonMessage "
@@ -117,10 +121,62 @@ def gen_spec(rng, small=False):
         "ambient": gen_ambient(rng),
         "raw_hosts": raw,
         "teardown": rng.random() < 0.7,
+        "layouts": [gen_layout(rng) if rng.random() < 0.8 else None for _ in hosts],
+        "deaths": sorted(rng.sample(range(len(hosts)), rng.choice([1, 1, 2]) if len(hosts) > 1 else 1)) if rng.random() < 0.4 else [],
     }
 
 
 LEVELS = ["DEBUG", "INFO", "WARNING", "ERROR"]
+
+# directory names with every relation two names can have: equal, different, one a character-wise extension of the other
+NAME_POOL = ["data", "data1", "data10", "data11", "data2", "d", "es", "es-2", "es2", "a", "a.b", "nodes", "elasticsearch"]
+
+
+def gen_layout(rng):
+    """where a node's installation and data live (the documented car variable `data_paths`: absent, one string, a list):
+    below the installation, next to it, on other disks, nested in each other, repeated, never created; plus directories of
+    others (`extra`) next to them.  Paths are relative to the node's root directory."""
+    home = rng.choice(["elasticsearch-8.6.1", "elasticsearch", "es"])
+    extra = rng.sample(["disks/data100", "disks/es-3", "disks/zzz", f"install/{home}-old", "other/data"], rng.choice([0, 0, 1, 2]))
+    if rng.random() < 0.2:
+        return {"home": home, "data": None, "form": "absent", "missing": [], "extra": extra}
+    n = rng.choice([1, 1, 2, 2, 3, 4, 12])
+    if n == 12:
+        data = [f"disks/data{i}" for i in range(1, rng.choice([11, 12, 13]))]
+        if rng.random() < 0.5:
+            rng.shuffle(data)
+    else:
+        cands = [f"disks/{x}" for x in NAME_POOL] + [f"install/{home}-data", f"install/{home}/data", f"install/{home}2", f"install/{home}/data/extra",
+                                                     "disks/a/b", "disks/data1/sub", "disks/es/es-2"]
+        data = rng.sample(cands, n)
+    if rng.random() < 0.1:
+        data.append(rng.choice(data))
+    return {"home": home, "data": data, "form": "str" if len(data) == 1 and rng.random() < 0.5 else "list",
+            "missing": [d for d in data if rng.random() < 0.06], "extra": extra}
+
+
+def name_extends(a, b):
+    """a != b, neither is the other's ancestor, but the string b starts with the string a"""
+    return a != b and b.startswith(a) and not b.startswith(a + "/")
+
+
+def layout_class(layout):
+    from harness import sim_mech
+
+    if not layout:
+        return "one-disk"
+    inst, data = sim_mech.layout_paths(layout)
+    paths = [inst] + data
+    tags = ["absent" if layout.get("data") is None else ("str" if layout.get("form") == "str" else f"list{min(len(data), 5)}")]
+    if any(name_extends(a, b) for a in paths for b in paths):
+        tags.append("name-extends-name")
+    if any(a != b and b.startswith(a + "/") for a in paths for b in paths):
+        tags.append("nested")
+    if len(set(data)) < len(data):
+        tags.append("repeated")
+    if layout.get("missing"):
+        tags.append("never-created")
+    return "+".join(tags)
 
 
 def host_str(ip):
@@ -301,6 +357,8 @@ def gen_processes(ctx):
             "convs": [[True, ip] for ip in remote], "stop": rng.random() < 0.9, "timers": rng.choice([0, 1, 2]),
             "sched": rng.getrandbits(32), "ambient": amb, "raw_hosts": render_hosts(rng, hosts) if rng.random() < 0.7 else None,
             "teardown": rng.random() < 0.7,
+            "layouts": [gen_layout(rng) if rng.random() < 0.6 else None for _ in hosts],
+            "deaths": sorted(rng.sample(range(len(hosts)), min(len(hosts), rng.choice([1, 1, 2, 3])))) if rng.random() < 0.45 else [],
         }
 
 
@@ -340,6 +398,14 @@ SMALL = [
      "ambient": {"log": None, "console": "quiet", "build": "distribution", "launcher": "process"}},
     {"hosts": [[1, 9200], [1, 9200], [1, 9200]], "plans": [], "convs": [[True, 1]], "raw_hosts": {"form": "json", "value": "{\"default\": [\"10.0.0.1:9200\", \"10.0.0.1\", {\"host\": \"10.0.0.1\"}]}"},
      "ambient": {"log": None, "console": "quiet", "build": "distribution", "launcher": "process"}},
+    # one call below stop_engine: data paths whose names extend each other / the installation's; a daemon that died before the stop
+    {"hosts": [[0, 9200], [0, 9200], [1, 9200]], "plans": [], "convs": [[True, 1]],
+     "layouts": [{"home": "es", "data": ["disks/data1", "disks/data10", "disks/data2"], "form": "list", "missing": [], "extra": ["disks/data100"]},
+                 {"home": "es", "data": ["install/es-data"], "form": "str", "missing": [], "extra": []},
+                 {"home": "elasticsearch", "data": None, "form": "absent", "missing": [], "extra": ["install/elasticsearch-old"]}]},
+    {"hosts": [[0, 9200], [0, 9200], [0, 9200]], "plans": [], "convs": [], "deaths": [1],
+     "layouts": [None, {"home": "es", "data": ["disks/a/b", "disks/a"], "form": "list", "missing": [], "extra": []}, None],
+     "ambient": {"log": None, "console": "quiet", "build": "distribution", "launcher": "process"}},
 ]
 
 
@@ -349,7 +415,7 @@ def gen_exhaustive(ctx):
     for i, c in enumerate(SMALL):
         if i % ctx.nshards != ctx.shard:
             continue
-        spec = {"external": False, "preserve": False, "raceFound": True, "convs": [], "stop": True, "timers": 0, "sched": 0, "ambient": None, "raw_hosts": None}
+        spec = {"external": False, "preserve": False, "raceFound": True, "convs": [], "stop": True, "timers": 0, "sched": 0, "ambient": None, "raw_hosts": None, "teardown": False}
         spec.update(c)
         real = (spec.get("ambient") or {}).get("launcher") == "process"  # real processes: ~30 ms per schedule
         yield {"spec": spec, "max_paths": (min(ctx.budget, 60) if real else ctx.budget) if ctx.tier == "quick" else (20000 if real else 120000)}
@@ -409,12 +475,43 @@ def oracle(ctx, spec, r):
         have = {p["node"] for p in procs}
         if n_started and have != set(range(len(spec["hosts"]))):
             ctx.fail("node-process-missing", "EngineStarted although some node has no daemon process", sorted(range(len(spec["hosts"]))), sorted(have))
+        died = set(r.get("died") or [])
         if n_stopped:
             for p in procs:
+                want = 0 if p["node"] in died else 1  # a daemon that had disappeared before the stop cannot be signalled
                 if p["alive"]:
                     ctx.fail("process-left-running", f"the daemon of node {p['node']} is still running after EngineStopped", "terminated", p)
-                elif p["terms"] != 1:
-                    ctx.fail("process-not-terminated-exactly-once", f"the daemon of node {p['node']} got {p['terms']} SIGTERM", 1, p["terms"])
+                elif p["terms"] != want:
+                    ctx.fail("process-not-terminated-exactly-once", f"the daemon of node {p['node']} got {p['terms']} SIGTERM", want, p["terms"])
+    # stop = "stop, flush and store system metrics": whatever the real ProcessLauncher.stop was asked to stop - a live daemon or one
+    # that died before the engine was stopped - has its system metrics (the start-up time every node has) in the metrics store, once
+    for st in r.get("stops") or []:
+        for pos, nid in enumerate(st["ids"]):
+            k = sum(1 for i, name in r.get("sysmetrics") or [] if i == nid and name == "node_startup_time")
+            if k != 1:
+                gone = "its process had died before the stop" if pos in st["dead"] else "its process was alive"
+                ctx.fail("system-metrics-not-stored", f"node {nid} was stopped ({gone}); its system metrics (node_startup_time) reached the metrics store {k} times", 1, k)
+            if pos not in st["dead"] and isinstance(st["stopped"], list) and st["stopped"].count(nid) != 1:
+                ctx.fail("stopped-node-not-reported", f"the live node {nid} is not among the nodes ProcessLauncher.stop reports as stopped", st["ids"], st["stopped"])
+    # clean up unless preserve is set: after the node's clean-up neither its installation nor any of its data paths (the scenario's
+    # own list) exists; with preserve everything that was there still is
+    from harness import sim_mech
+
+    for c in r.get("cleanups") or []:
+        inst, data = sim_mech.layout_paths(c["layout"])
+        before, after = set(c["before"]), set(c["after"])
+        for path in [inst] + data:
+            if spec["preserve"]:
+                lost = sorted(q for q in before if (q == path or q.startswith(path + "/")) and q not in after)
+                if lost:
+                    ctx.fail("cleanup-removed-preserved-path", f"node {c['node']}: preserve is set but {lost[:3]} was removed", sorted(before), sorted(after))
+                    break
+            else:
+                left = sorted(q for q in after if q == path or q.startswith(path + "/"))
+                if left:
+                    what = "installation" if path == inst else "data path"
+                    ctx.fail("cleanup-left-path", f"node {c['node']}: preserve is not set but the {what} [{path}] is still there after the clean-up (layout {layout_class(c['layout'])})", [], left[:4])
+                    break
 
     # external_untouched
     if ext:
@@ -535,13 +632,50 @@ def compare(ctx, spec, r, judge=True):
         lm = ctx.model("mechanic", "launcher", {"n": len(l["ids"])})["r"]
         if lm["owners"] != l["owners"]:
             ctx.diff("ProcessLauncher.start: node -> daemon it tracks", lm["owners"], l["owners"])
-        if stopped and all(i in by_node for i in l["ids"]):
+        if stopped and all(i in by_node for i in l["ids"]) and not (r.get("died") or []):
             obs = [[by_node[i]["terms"] for i in l["ids"]], [by_node[i]["alive"] for i in l["ids"]]]
             if [lm["terms"], lm["running"]] != obs:
                 ctx.diff("ProcessLauncher.stop: SIGTERMs per daemon / still running", [lm["terms"], lm["running"]], obs)
+    compare_below_stop(ctx, r)
     if judge:
         oracle(ctx, spec, r)
     return m
+
+
+def compare_below_stop(ctx, r):
+    """what stop_engine's collaborators did, against Launcher.stopAllT (driver op launcherStop) and Cleanup.cleanup (op cleanup)"""
+    by_node = {p["node"]: p for p in r.get("processes") or []}
+    for st in r.get("stops") or []:
+        lm = ctx.model("mechanic", "launcherStop", {"n": len(st["ids"]), "dead": st["dead"]})["r"]
+        obs = {
+            "stored": [sum(1 for i, name in r["sysmetrics"] if i == nid and name == "node_startup_time") for nid in st["ids"]],
+            "meta": [r["metainfo"].count(nid) for nid in st["ids"]],
+            "stopped": [st["ids"].index(i) if i in st["ids"] else -1 for i in st["stopped"]] if isinstance(st["stopped"], list) else st["stopped"],
+        }
+        if all(i in by_node for i in st["ids"]):
+            obs["terms"] = [by_node[i]["terms"] for i in st["ids"]]
+            obs["running"] = [by_node[i]["alive"] for i in st["ids"]]
+        mod = {k: lm[k] for k in obs}
+        if mod != obs:
+            ctx.diff("ProcessLauncher.stop: system metrics / meta data stored per node, nodes reported stopped, SIGTERMs, still running", mod, obs)
+    for c in r.get("cleanups") or []:
+        names = {}
+
+        def ids(path):
+            return [names.setdefault(x, len(names) + 1) for x in path.split("/") if x]
+
+        try:
+            args = {"preserve": c["preserve"], "install": ids(c["install"]), "data": [ids(d) for d in c["data"]], "fs": [ids(q) for q in c["before"]]}
+            if c["install"].startswith("..") or any(d.startswith("..") for d in c["data"]):
+                raise ValueError("a path outside the node's root directory")
+        except Exception as e:  # pylint: disable=broad-except
+            ctx.diff("provisioner.cleanup was called with paths the harness cannot place", None, [c["install"], c["data"], str(e)])
+            continue
+        left = ctx.model("mechanic", "cleanup", args)["r"]
+        if sorted(left) != sorted(ids(q) for q in c["after"]):
+            back = {v: k for k, v in names.items()}
+            ctx.diff(f"provisioner.cleanup(preserve={c['preserve']}, {c['install']}, {c['data']}): directories left",
+                     sorted("/".join(back[i] for i in q) for q in left), c["after"])
 
 
 def run_history(ctx, case):
@@ -555,7 +689,9 @@ def run_history(ctx, case):
     sig = [min(H, 4), min(remotes, 2), case["external"], sorted({plan_kind(p) for p in case["plans"]}),
            sorted({("join" if a else "leave") for a, _ in case["convs"]}), case["stop"], outcome(r), m["status"], r["quiescent"],
            ambient_class(case.get("ambient"))[:2], (case.get("raw_hosts") or {}).get("form"), (case.get("ambient") or {}).get("launcher") == "process",
-           max(len(i) for i in r["groups"]["ids"]) > 1 if r["groups"]["ids"] else False]
+           max(len(i) for i in r["groups"]["ids"]) > 1 if r["groups"]["ids"] else False,
+           sorted({t for c in r.get("cleanups") or [] for t in layout_class(c["layout"]).split("+") if not c["preserve"]})[:4],
+           min(len(r.get("died") or []), 2)]
     ctx.sig(sig, nontrivial=asked or case["external"])
     ctx.count("H=%d" % H)
     ctx.count("hosts-form:" + str((case.get("raw_hosts") or {}).get("form")))
@@ -575,6 +711,14 @@ def run_history(ctx, case):
         ctx.count("start-failure-planned")
     if r.get("torn_down"):
         ctx.count("torn-down-without-stop")
+    for c in r.get("cleanups") or []:
+        ctx.count("cleanup:" + ("preserve" if c["preserve"] else "wipe"))
+        for t in layout_class(c["layout"]).split("+"):
+            ctx.count("cleanup-layout:" + t)
+    if r.get("died"):
+        ctx.count("node-died-before-stop", len(r["died"]))
+    if r.get("stops"):
+        ctx.count("real-launcher-stops", len(r["stops"]))
     if (case.get("ambient") or {}).get("launcher") == "process":
         ctx.count("real-launcher")
         ctx.count("real-launcher-processes", len(r.get("processes") or []))
@@ -619,6 +763,73 @@ def run_groups(ctx, case):
     if flat != list(range(len(case["hosts"]))):
         ctx.fail("grouping-wrong", "node ids are not a partition of 0..n-1", list(range(len(case["hosts"]))), flat)
     ctx.sig([min(len(impl), 4), len(case["hosts"]) > len(impl)], nontrivial=len(case["hosts"]) > 0)
+
+
+CAR_FORMS = ["absent", "str", "list", "list", "list", "tuple", "int", "none", "dict", "empty-list", "bool", "float"]
+
+
+def gen_car_data_paths(ctx):
+    """the documented car variable `data_paths` in every form a car file / --car-params can give it"""
+    rng = ctx.rng
+    for _ in range(ctx.budget):
+        layout = gen_layout(rng)
+        data = layout["data"] or ["disks/x"]
+        yield {"home": layout["home"], "form": rng.choice(CAR_FORMS), "paths": data if rng.random() < 0.8 else data[:1]}
+
+
+def run_car_data_paths(ctx, case):
+    import os
+
+    from esrally import exceptions
+    from esrally.mechanic import provisioner
+
+    from harness import sim_mech
+
+    root = "/c12root"
+    home = os.path.join(root, "install", case["home"])
+    absolute = [os.path.join(root, d) for d in case["paths"]]
+    form = case["form"]
+    value = {"str": absolute[0], "list": absolute, "tuple": tuple(absolute), "int": 3, "none": None, "dict": {"path": absolute[0]}, "empty-list": [],
+             "bool": True, "float": 1.5}.get(form)
+    variables = {} if form == "absent" else {"data_paths": value}
+    names = {"data": 0}
+
+    def ids(path):
+        return [names.setdefault(x, len(names)) for x in os.path.relpath(path, root).split("/") if x and x != "."]
+
+    mform = {"absent": "absent", "str": "str", "list": "list", "empty-list": "list"}.get(form, "other")
+    args = {"home": ids(home), "form": mform}
+    if mform == "str":
+        args["value"] = ids(absolute[0])
+    elif mform == "list":
+        args["value"] = [ids(x) for x in (absolute if form == "list" else [])]
+    m = ctx.model("mechanic", "dataPaths", args)
+    mod = m.get("err") or sorted(m["r"])
+    try:
+        inst = object.__new__(provisioner.ElasticsearchInstaller)
+        inst.car = sim_mech.LayoutCar(variables)
+        inst.es_home_path = home
+        try:
+            fn = inst._data_paths  # pylint: disable=protected-access
+        except AttributeError:
+            ctx.count("installer-data-paths-elsewhere")
+            ctx.sig(["not-found"], nontrivial=False)
+            return
+        got = fn()
+        impl = sorted(ids(x) for x in got)
+        raw = list(got)
+    except exceptions.SystemSetupError:
+        impl, raw = "SystemSetupError", None
+    except Exception as e:  # pylint: disable=broad-except
+        impl, raw = f"{type(e).__name__}: {e}", None
+    if mod != impl:
+        ctx.diff("ElasticsearchInstaller._data_paths", mod, impl)
+    # oracle: the data paths are the ones the car names (not defined: <es home>/data) - these are what the clean-up has to wipe
+    want = {"absent": [os.path.join(home, "data")], "str": absolute[:1], "list": absolute, "empty-list": []}.get(form)
+    if want is not None and raw != want:
+        ctx.fail("car-data-paths-wrong", f"car variable data_paths ({form}) = {value!r}: the node's data paths are not the ones named", want, raw if raw is not None else impl)
+    ctx.sig([form, len(case["paths"]) if form in ("list", "tuple") else 0, impl if isinstance(impl, str) else "paths"], nontrivial=True)
+    ctx.count("car-form:" + form)
 
 
 class Chooser:
@@ -677,5 +888,6 @@ STREAMS = [
     Stream("inject", gen_inject, run_inject, quick=3000, thorough=40000, shards=6),
     Stream("processes", gen_processes, run_history, quick=480, thorough=8000, shards=8),
     Stream("groups", gen_groups, run_groups, quick=500, thorough=5000, shards=1),
+    Stream("car_data_paths", gen_car_data_paths, run_car_data_paths, quick=600, thorough=6000, shards=1),
     Stream("exhaustive", gen_exhaustive, run_exhaustive, quick=3000, thorough=200000, shards=12, exhaustive_thorough=True),
 ]
